@@ -217,8 +217,13 @@ def handleTrace (j : Json) : R Json := do
   | none => pure (jBool true)
   | some i => pure (jObj [("bad_event_index", jNat i)])
 
+/-- a history: several self-contained `t1` requests in one line → array of results -/
+def handleBatch (j : Json) : R Json := do
+  let rs ← (← fldArr j "reqs").toList.mapM handle
+  pure (jArr rs)
+
 def routes : List (String × (Json → R Json)) :=
   [("t1", handle), ("t1.output", handleOutput), ("t1.budget", handleBudget),
-   ("t1.rule", handleRule), ("t1.seeds", handleSeeds), ("t1.trace", handleTrace)]
+   ("t1.rule", handleRule), ("t1.seeds", handleSeeds), ("t1.trace", handleTrace), ("t1.batch", handleBatch)]
 
 end Driver.HT1
